@@ -5,7 +5,7 @@ CONSTANTS
   TrimExact = FALSE
   MaxHops = 3
   Statuses = {400, 404, 416, 429, 500}
-  Kinds = {"GET", "HEAD", "PUT", "DELETE", "LIST"}
+  Kinds = {"GET", "HEAD"}
   Export = FALSE
 INVARIANTS StatusPerTable IsPreserved CellsExact CodePreserved DetailPreserved HeadLaw MessageFixedPoint FirstHopMessage
 CHECK_DEADLOCK FALSE
